@@ -199,6 +199,7 @@ type walker struct {
 	stats   *Stats
 	found   []Found
 	seen    map[uint64]int // state key -> max remaining budget with which it was expanded
+	states  map[uint64]struct{}
 	keys    map[string]bool
 	capped  bool
 	sample  *Sample
@@ -268,6 +269,9 @@ func (w *walker) explore(prefix []int, sigs []uint64, splitOnly bool) (children 
 	cost := prefixCost(x, len(prefix))
 	for i := len(prefix); i < len(x.Points); i++ {
 		p := x.Points[i]
+		if p.State != 0 {
+			w.states[p.State] = struct{}{}
+		}
 		if w.prune && p.State != 0 {
 			remaining := 1 << 30
 			if w.bound >= 0 {
@@ -323,6 +327,7 @@ var (
 	flagTrace    = flag.Bool("trace", false, "print the trace of the first execution of each scenario")
 	flagList     = flag.Bool("list", false, "list scenarios")
 	flagNoPrune  = flag.Bool("noprune", false, "disable state-key pruning")
+	flagPrune    = flag.Bool("prune", false, "force state-key pruning")
 )
 
 func findScenario(cfg *Config, name string) *Scenario {
@@ -386,11 +391,14 @@ func runJob(cfg *Config, job *Job) (res JobResult) {
 			res.Err = fmt.Sprintf("worker panic: %v", r)
 		}
 	}()
-	w := &walker{sc: sc, bound: job.Bound, prune: job.Prune, maxExec: job.MaxExec, stats: newStats(), seen: map[uint64]int{}, keys: map[string]bool{}}
+	w := &walker{sc: sc, bound: job.Bound, prune: job.Prune, maxExec: job.MaxExec, stats: newStats(), seen: map[uint64]int{}, states: map[uint64]struct{}{}, keys: map[string]bool{}}
 	children := w.explore(job.Prefix, nil, job.Split)
-	w.stats.States = len(w.seen)
+	w.stats.States = len(w.states)
 	return JobResult{Stats: w.stats, Found: w.found, Children: children, Err: w.err, Capped: w.capped, Sample: w.sample}
 }
+
+// jobWatchdog bounds one job; a job is a subtree of executions, normally well under a minute.
+var jobWatchdog = 10 * time.Minute
 
 type workerProc struct {
 	cmd *exec.Cmd
@@ -425,9 +433,24 @@ func (w *workerProc) do(job *Job) (*JobResult, error) {
 	if err := w.in.Flush(); err != nil {
 		return nil, err
 	}
-	line, err := w.out.ReadBytes('\n')
-	if err != nil {
-		return nil, fmt.Errorf("worker died: %v", err)
+	type rd struct {
+		line []byte
+		err  error
+	}
+	ch := make(chan rd, 1)
+	go func() {
+		line, err := w.out.ReadBytes('\n')
+		ch <- rd{line, err}
+	}()
+	var line []byte
+	select {
+	case r := <-ch:
+		if r.err != nil {
+			return nil, fmt.Errorf("worker died: %v", r.err)
+		}
+		line = r.line
+	case <-time.After(jobWatchdog):
+		return nil, fmt.Errorf("worker did not answer within %v (an execution blocked outside the scheduler's control)", jobWatchdog)
 	}
 	var res JobResult
 	if err := json.Unmarshal(line, &res); err != nil {
@@ -526,7 +549,7 @@ func coordinate(cfg *Config) int {
 				fmt.Println(x.Res.Detail)
 			}
 		}
-		prune := sc.Prune && !*flagNoPrune
+		prune := (sc.Prune || *flagPrune) && !*flagNoPrune
 		st := newStats()
 		scExh := true
 		var mu sync.Mutex
